@@ -25,6 +25,18 @@ struct V {
     detail: String,
 }
 
+/// Did the wrapped sink panic before the RET of `metric` was logged?
+fn panicked_before(log: &[Ev], metric: &str) -> bool {
+    for e in log {
+        match e {
+            Ev::Exit { out: Out::Panic, .. } => return true,
+            Ev::Ret { metric: m, .. } if m == metric => return false,
+            _ => {}
+        }
+    }
+    false
+}
+
 fn log_json(log: &[Ev], max: usize) -> Json {
     Json::Arr(log.iter().take(max).map(|e| Json::Str(e.short())).collect())
 }
@@ -482,7 +494,8 @@ fn offline(cfg: &ConcCfg, log: &[Ev], accepted: &[String], aborted: bool, viol: 
                                 let others = inflight.len() as i64;
                                 if acc + others - ent_at_call < cap as i64 {
                                     viol.push(V {
-                                        props: vec!["C10"],
+                                        // "the sink keeps accepting metrics" after a panic of the wrapped sink is C11's clause too
+                                        props: if panicked_before(log, metric) { vec!["C10", "C11"] } else { vec!["C10"] },
                                         rule: "R5",
                                         class: "refused-with-room".into(),
                                         detail: format!("emit({}) was refused although at most {} metrics can have been queued during the call (capacity {})", metric, acc + others - ent_at_call, cap),
@@ -500,7 +513,7 @@ fn offline(cfg: &ConcCfg, log: &[Ev], accepted: &[String], aborted: bool, viol: 
     } else {
         for e in log {
             if let Ev::Ret { metric, ok: Err(msg), .. } = e {
-                viol.push(V { props: vec!["C10"], rule: "R5", class: "unbounded-refused".into(), detail: format!("an unbounded queue refused {}: {}", metric, msg) });
+                viol.push(V { props: if panicked_before(log, metric) { vec!["C10", "C11"] } else { vec!["C10"] }, rule: "R5", class: "unbounded-refused".into(), detail: format!("an unbounded queue refused {}: {}", metric, msg) });
                 return;
             }
         }
